@@ -44,23 +44,25 @@ type SiteStat struct {
 }
 
 type Result struct {
-	ID      string          `json:"id,omitempty"`
-	Status  string          `json:"status"` // exit | panic | timeout | budget | recursion | fatal | stuck
-	Exit    int             `json:"exit"`
-	Stdout  []byte          `json:"stdout"`
-	Stderr  []byte          `json:"stderr"`
-	Ticks   int64           `json:"ticks"`
-	Panic   string          `json:"panic,omitempty"`
-	PanicAt []string        `json:"panic_at,omitempty"`
-	PanicS  string          `json:"panic_s,omitempty"`
-	HangAt  string          `json:"hang_at,omitempty"`
-	EvHash  string          `json:"evhash"`
-	MapEvts int             `json:"map_evts"`
-	Timers  int             `json:"timers"`
-	Fired   int             `json:"fired"`
-	Sites   []SiteStat      `json:"sites,omitempty"`
-	Extra   json.RawMessage `json:"extra,omitempty"`
-	Retire  bool            `json:"retire,omitempty"`
+	ID         string          `json:"id,omitempty"`
+	Status     string          `json:"status"` // exit | panic | timeout | budget | recursion | fatal | stuck
+	Exit       int             `json:"exit"`
+	Stdout     []byte          `json:"stdout"`
+	Stderr     []byte          `json:"stderr"`
+	Ticks      int64           `json:"ticks"`
+	Panic      string          `json:"panic,omitempty"`
+	PanicAt    []string        `json:"panic_at,omitempty"`
+	PanicS     string          `json:"panic_s,omitempty"`
+	HangAt     string          `json:"hang_at,omitempty"`
+	EvHash     string          `json:"evhash"`
+	MapEvts    int             `json:"map_evts"`
+	SchedEvts  int             `json:"sched_evts"`
+	Goroutines int             `json:"goroutines"`
+	Timers     int             `json:"timers"`
+	Fired      int             `json:"fired"`
+	Sites      []SiteStat      `json:"sites,omitempty"`
+	Extra      json.RawMessage `json:"extra,omitempty"`
+	Retire     bool            `json:"retire,omitempty"`
 }
 
 // Job is what oracles hand to a worker: a disk image plus one process invocation.
@@ -183,6 +185,8 @@ type Pool struct {
 	Runs     atomic.Int64
 	Ticks    atomic.Int64
 	Respawns atomic.Int64
+	Sched    atomic.Int64 // baton hand-overs decided among >= 2 goroutines
+	MapDec   atomic.Int64 // map-order decisions with >= 2 keys
 	memKB    int64
 }
 
@@ -341,6 +345,8 @@ func (w *Worker) Exec(j *Job) Result {
 		w.pool.Respawns.Add(1)
 	}
 	w.pool.Ticks.Add(res.Ticks)
+	w.pool.Sched.Add(int64(res.SchedEvts))
+	w.pool.MapDec.Add(int64(res.MapEvts))
 	return res
 }
 
